@@ -729,6 +729,9 @@ class OneHotMux(Elaboratable):
     def elaborate(self, platform):
         m = Module()
 
+        if not len(self.select) and not self.has_default:
+            return m  # nothing to select from: the output stays a 0 vector
+
         m.d.comb += Value.cast(self.output).eq(
             one_hot_mux(
                 [(self.select[i], self.inputs[i]) for i in range(len(self.select))],
